@@ -19,6 +19,8 @@ stated about what the source says now:
   mouseKeepsRoot         on_term_mouse holds a reference on the root window from before its first dispatch to after its last
   lastPressInit          tickit_window_new_root2 initialises mouse_last_button/line/col
   penCopyKeepsSrc        tickit_pen_copy holds a reference on src from before freeze(dst) to after thaw(dst)
+  rootForgetsTickit      tickit_destroy() (src/tickit.c) calls, before it frees the instance, a function of src/window.c
+                         that clears root->tickit (a root window the application still references outlives the instance)
 """
 import re
 
@@ -116,6 +118,18 @@ def run(ctx):
     ithaw = pcopy.rfind("thaw(dst)")
     iunref = pcopy.rfind("tickit_pen_unref(")
     flags["penCopyKeepsSrc"] = bool(0 <= iref < ifrz and 0 <= ithaw < iunref and "src" in pcopy[iref:iref + 60])
+
+    tk = strip(src("src/tickit.c"))
+    tdestroy = body_of(tk, "static void tickit_destroy") or ""
+    if not tdestroy:
+        info["untranslatable"].append("life:function:tickit_destroy")
+    forgetters = []
+    for m in re.finditer(r"\n(?:static\s+)?void\s+(\w+)\s*\(\s*TickitWindow\s*\*\s*\w+\s*\)\s*\{", win):
+        b = body_of(win, "void " + m.group(1)) or ""
+        if re.search(r"->\s*tickit\s*=\s*NULL\s*;", b):
+            forgetters.append(m.group(1))
+    ifree = tdestroy.rfind("free(t)")
+    flags["rootForgetsTickit"] = any(0 <= tdestroy.find(f + "(") < ifree for f in forgetters)
 
     body = "namespace Tickit.Gen.Life\n"
     for k, v in flags.items():
